@@ -39,8 +39,7 @@ def r1(cx, rec):
     for f, bi, e in writers:
         src = dict(e[4]).get('info_hash')
         x = src
-        while x[0] in ('try', 'cast'):
-            x = x[1]
+        x = mirq.peel_ok(x)
         rec.site(f, bi, 'info_hash <- %s' % show(src)[:80])
         ok = x[0] == 'call' and x[1] == H.path
         rec.need(ok, 'info-hash-source', f, bi, 'info_hash is initialised from %s' % show(src)[:80])
